@@ -143,6 +143,89 @@ theorem five_point_backward (a b c d x h : ℝ) (hh : h ≠ 0) :
            (a + b * (x - 2 * h) + c * (x - 2 * h) ^ 2 + d * (x - 2 * h) ^ 3) h = (2 * c + 6 * d * x) - 6 * d * h := by
   rw [d1Side_real, d2Side_real]; constructor <;> (field_simp; ring)
 
+/-! ### Remainders on the whole quantifier of the property (degree ≤ 5)
+
+"… and otherwise converge with the step at the scheme's order": for every polynomial of degree ≤ 5
+the error of each formula is an explicit polynomial in the step with the factor `h` (two-point and
+one-sided forms: first order), `h²` (three-point central: second order), `h⁴` (five-point: fourth
+order).  `poly5d3 … poly5d5` are the third to fifth derivatives. -/
+
+def poly5d3 (c : Fin 6 → ℝ) (t : ℝ) : ℝ := 6 * c 3 + 24 * c 4 * t + 60 * c 5 * t ^ 2
+def poly5d4 (c : Fin 6 → ℝ) (t : ℝ) : ℝ := 24 * c 4 + 120 * c 5 * t
+def poly5d5 (c : Fin 6 → ℝ) : ℝ := 120 * c 5
+
+/-- two-point formula (and the one-sided first derivatives of the five-point scheme, which are the
+same quotient): first order on every polynomial of degree ≤ 5, whichever side the probe is on -/
+theorem two_point_remainder_deg5 (c : Fin 6 → ℝ) (x h : ℝ) (hh : h ≠ 0) :
+    d1Two (poly5 c x) (poly5 c (x + h)) h = poly5' c x +
+      h * (poly5'' c x / 2 + h * poly5d3 c x / 6 + h ^ 2 * poly5d4 c x / 24 + h ^ 3 * poly5d5 c / 120) := by
+  rw [d1Two_real]; unfold poly5 poly5' poly5'' poly5d3 poly5d4 poly5d5; field_simp; ring
+
+theorem five_point_one_sided_d1_remainder_deg5 (c : Fin 6 → ℝ) (x h : ℝ) (hh : h ≠ 0) :
+    d1Side (poly5 c (x + h)) (poly5 c x) h = poly5' c x +
+      h * (poly5'' c x / 2 + h * poly5d3 c x / 6 + h ^ 2 * poly5d4 c x / 24 + h ^ 3 * poly5d5 c / 120) ∧
+    d1Side (poly5 c x) (poly5 c (x - h)) h = poly5' c x -
+      h * (poly5'' c x / 2 - h * poly5d3 c x / 6 + h ^ 2 * poly5d4 c x / 24 - h ^ 3 * poly5d5 c / 120) := by
+  rw [d1Side_real, d1Side_real]; unfold poly5 poly5' poly5'' poly5d3 poly5d4 poly5d5
+  constructor <;> (field_simp; ring)
+
+/-- three-point first derivative, symmetric probes: second order on degree ≤ 5 -/
+theorem three_point_d1_remainder_deg5 (c : Fin 6 → ℝ) (x h : ℝ) (hh : h ≠ 0) :
+    d1Three (poly5 c (x + h)) (poly5 c (x - h)) h (-h) = poly5' c x +
+      h ^ 2 * (poly5d3 c x / 6 + h ^ 2 * poly5d5 c / 120) := by
+  rw [d1Three_real]
+  have : h - -h ≠ 0 := by intro e; apply hh; linarith
+  unfold poly5 poly5' poly5d3 poly5d5; field_simp; ring
+
+/-- three-point second derivative, symmetric probes: second order on degree ≤ 5 -/
+theorem three_point_d2_remainder_deg5 (c : Fin 6 → ℝ) (x h : ℝ) (hh : h ≠ 0) :
+    d2Three (poly5 c (x + h)) (poly5 c x) (poly5 c (x - h)) h (-h) = poly5'' c x + h ^ 2 * (poly5d4 c x / 12) := by
+  rw [d2Three_real]
+  have : h - -h ≠ 0 := by intro e; apply hh; linarith
+  have h' : -h ≠ 0 := neg_ne_zero.mpr hh
+  unfold poly5 poly5'' poly5d4; field_simp; ring
+
+/-- three-point formulas with any two distinct non-zero steps `a`, `b` (the one-sided fall-backs use
+`H, H/2`, the halved ones `∓H/2`): first order in the steps on degree ≤ 5 -/
+theorem three_point_one_sided_remainder_deg5 (c : Fin 6 → ℝ) (x a b : ℝ) (ha : a ≠ 0) (hb : b ≠ 0) (hne : a ≠ b) :
+    d1Three (poly5 c (x + a)) (poly5 c (x + b)) a b = poly5' c x +
+      ((a + b) * poly5'' c x / 2 + (a ^ 2 + a * b + b ^ 2) * poly5d3 c x / 6 +
+       (a ^ 3 + a ^ 2 * b + a * b ^ 2 + b ^ 3) * poly5d4 c x / 24 +
+       (a ^ 4 + a ^ 3 * b + a ^ 2 * b ^ 2 + a * b ^ 3 + b ^ 4) * poly5d5 c / 120) ∧
+    d2Three (poly5 c (x + a)) (poly5 c x) (poly5 c (x + b)) a b = poly5'' c x +
+      ((a + b) * poly5d3 c x / 3 + (a ^ 2 + a * b + b ^ 2) * poly5d4 c x / 12 +
+       (a ^ 3 + a ^ 2 * b + a * b ^ 2 + b ^ 3) * poly5d5 c / 60) := by
+  rw [d1Three_real, d2Three_real]
+  have : a - b ≠ 0 := sub_ne_zero.mpr hne
+  unfold poly5 poly5' poly5'' poly5d3 poly5d4 poly5d5
+  constructor <;> (field_simp; ring)
+
+/-- one-sided second derivatives of the five-point scheme: first order on degree ≤ 5 -/
+theorem five_point_one_sided_d2_remainder_deg5 (c : Fin 6 → ℝ) (x h : ℝ) (hh : h ≠ 0) :
+    d2Side (poly5 c (x + 2 * h)) (poly5 c (x + h)) (poly5 c x) h = poly5'' c x +
+      h * (poly5d3 c x + h * (7 / 12) * poly5d4 c x + h ^ 2 * poly5d5 c / 4) ∧
+    d2Side (poly5 c x) (poly5 c (x - h)) (poly5 c (x - 2 * h)) h = poly5'' c x -
+      h * (poly5d3 c x - h * (7 / 12) * poly5d4 c x + h ^ 2 * poly5d5 c / 4) := by
+  rw [d2Side_real, d2Side_real]; unfold poly5 poly5'' poly5d3 poly5d4 poly5d5
+  constructor <;> (field_simp; ring)
+
+/-- the cross formula is linear in the function and, on a product `g(s) k(t)`, the product of the
+two central first differences: with `three_point_d1_remainder_deg5` this gives the error of the
+cross derivative on every monomial `sⁱ tʲ`, `i, j ≤ 5`, hence (linearity) on every polynomial of the
+property's quantifier — second order in `h1` and in `h2` -/
+theorem cross_product (g k : ℝ → ℝ) (x y h1 h2 : ℝ) (hh1 : h1 ≠ 0) (hh2 : h2 ≠ 0) :
+    crossThree (g (x - h1) * k (y - h2)) (g (x - h1) * k (y + h2)) (g (x + h1) * k (y - h2)) (g (x + h1) * k (y + h2)) h1 h2
+      = d1Three (g (x + h1)) (g (x - h1)) h1 (-h1) * d1Three (k (y + h2)) (k (y - h2)) h2 (-h2) := by
+  rw [crossThree_real, d1Three_real, d1Three_real]
+  have : h1 - -h1 ≠ 0 := by intro e; apply hh1; linarith
+  have : h2 - -h2 ≠ 0 := by intro e; apply hh2; linarith
+  field_simp; ring
+
+theorem cross_linear (a b u11 u12 u21 u22 v11 v12 v21 v22 h1 h2 : ℝ) :
+    crossThree (a * u11 + b * v11) (a * u12 + b * v12) (a * u21 + b * v21) (a * u22 + b * v22) h1 h2
+      = a * crossThree u11 u12 u21 u22 h1 h2 + b * crossThree v11 v12 v21 v22 h1 h2 := by
+  simp only [crossThree_real]; ring
+
 /-- a polynomial of degree ≤ 2 in each of two variables (coefficients `c i j` of `s^i t^j`) -/
 def biquad (c : Fin 3 → Fin 3 → ℝ) (s t : ℝ) : ℝ :=
   c 0 0 + c 0 1 * t + c 0 2 * t ^ 2 + c 1 0 * s + c 1 1 * s * t + c 1 2 * s * t ^ 2
